@@ -948,6 +948,92 @@ pub fn run_lockstep_shard(
     // sessions built around completions (word, blanks, cursor moved back, Tab) followed by output, a prompt change or an
     // edit: the states a completion leaves behind are rare in the general sessions
     run_lockstep_shard_with(ctx, sub, prop, total / 6, tab_session_strategy(true), flags);
+    run_marathon(ctx, sub, prop, case_strategy(opts, sets), flags, ctx.tier.pick(70_000, 400_000));
+}
+
+/// One session per shard that goes on for `target` key and API operations (the operations of many generated sessions, one
+/// after the other on the Cli of the first): "of any length" - whatever counts keys, lines, output bytes or history entries
+/// in 16 bits, or drifts a little with every line, shows only there. A failure is cut down to the prefix that fails and then
+/// by dropping leading halves while it still fails (a session of this size is not shrunk op by op).
+pub fn run_marathon<S: Strategy<Value = Case>>(ctx: &ShardCtx, sub: &'static str, prop: &'static str, strat: S, flags: Flags, target: usize) {
+    use proptest::strategy::ValueTree;
+    use proptest::test_runner::{Config as PConfig, RngSeed, TestRunner};
+    if ctx.failed() {
+        return;
+    }
+    let seed = u64::from_le_bytes(crate::engine::mix_seed(ctx.seed, &[&ctx.property, sub, "marathon"], ctx.shard)[..8].try_into().unwrap());
+    let mut runner = TestRunner::new(PConfig { rng_seed: RngSeed::Fixed(seed), failure_persistence: None, ..PConfig::default() });
+    let mut case: Option<Case> = None;
+    while case.as_ref().map(|c| c.ops.len()).unwrap_or(0) < target {
+        let Ok(tree) = strat.new_tree(&mut runner) else { break };
+        let c = tree.current();
+        match &mut case {
+            // (the long-line sessions need their own buffers; the marathon keeps the buffers of its first session)
+            Some(m) => {
+                if c.cfg.cmd_buf < 200 {
+                    m.ops.extend(c.ops)
+                }
+            }
+            None => {
+                if c.cfg.cmd_buf < 200 {
+                    case = Some(c)
+                }
+            }
+        }
+    }
+    let Some(mut c) = case else { return };
+    ctx.count_eval();
+    if ctx.trace_file.is_some() {
+        ctx.trace(&json!({"check": sub, "case": case_json(&c)}));
+    }
+    let verdict = |c: &Case| match crate::engine::guarded(|| run_case(c, flags)) {
+        Ok(r) => r,
+        Err(p) => Err(("no panic".to_string(), p)),
+    };
+    match verdict(&c) {
+        Ok(stats) => {
+            if let Some(i) = stats.inconclusive {
+                ctx.inconclusive(i);
+            }
+            ctx.count_evals(stats.steps);
+            ctx.class_n("api calls checked", stats.steps);
+            ctx.class_n("marathon:operations in one session", c.ops.len() as u64);
+            ctx.class("marathon:sessions");
+            for (p, fp, sample) in stats.nontrivial {
+                if p == prop {
+                    ctx.nontrivial(fp, || sample.unwrap_or(Value::Null));
+                }
+            }
+        }
+        Err((mut e, mut o)) => {
+            // the prefix that fails
+            if let Some(n) = e.split("op #").nth(1).and_then(|t| t.split(|ch: char| !ch.is_ascii_digit()).next()).and_then(|t| t.parse::<usize>().ok()) {
+                let mut cut = c.clone();
+                cut.ops.truncate(n + 1);
+                if let Err((e2, o2)) = verdict(&cut) {
+                    c = cut;
+                    e = e2;
+                    o = o2;
+                }
+            }
+            for _ in 0..16 {
+                if c.ops.len() < 8 {
+                    break;
+                }
+                let mut half = c.clone();
+                half.ops.drain(..c.ops.len() / 2);
+                match verdict(&half) {
+                    Err((e2, o2)) => {
+                        c = half;
+                        e = e2;
+                        o = o2;
+                    }
+                    Ok(_) => break,
+                }
+            }
+            ctx.fail(Failure::new(sub, case_json(&c), format!("{} (one session of many operations)", e), o));
+        }
+    }
 }
 
 pub fn run_lockstep_shard_with<S: Strategy<Value = Case>>(ctx: &ShardCtx, sub: &'static str, prop: &'static str, total: u64, strat: S, flags: Flags) {
